@@ -470,6 +470,13 @@ switchpos:
 		case token.GreaterEq:
 			return Bool(bval >= v), nil
 		}
+	case Float:
+		if o {
+			return Float(1).BinaryOp(tok, right)
+		}
+		return Float(0).BinaryOp(tok, right)
+	case Char:
+		return Char(bval).BinaryOp(tok, right)
 	case Bool:
 		if v {
 			right = Int(1)
